@@ -12,6 +12,12 @@ def build_gen_runner(ctx):
     return vlib.bin_path("gen_runner"), None
 
 
+def _cap_memory():
+    import resource
+    lim = 4 * 1024 ** 3
+    resource.setrlimit(resource.RLIMIT_AS, (lim, lim))
+
+
 def run_gen(ctx, exe, cases, tag="gen", timeout=1200):
     """cases: list of dicts {"id","syntax","text","name","want"}. Returns dict id -> result dict.
     A case that kills the process (stack overflow / abort) is reported with status "abort"."""
@@ -24,7 +30,11 @@ def run_gen(ctx, exe, cases, tag="gen", timeout=1200):
         with open(path, "w") as f:
             for c in pending:
                 f.write(json.dumps(c) + "\n")
-        p = subprocess.run([exe, path], stdout=subprocess.PIPE, stderr=subprocess.DEVNULL, timeout=timeout)
+        # address-space cap (4 GB): a generator that expands without bound (a cyclic block-ref definition reaching the
+        # collision pass, should refs_validated ever let one through again) must die by itself, quickly and observably
+        # (status "abort"), not by the kernel's global OOM killer
+        p = subprocess.run([exe, path], stdout=subprocess.PIPE, stderr=subprocess.DEVNULL, timeout=timeout,
+                           preexec_fn=_cap_memory)
         out = p.stdout.decode(errors="replace").splitlines()
         n = 0
         for line in out:
